@@ -23,11 +23,17 @@ def opServer (j : Json) : P Json := do
     let l ← arr kv
     pure ((← int (← nth l 0)), (← parseSlaveB (← nth l 1))))
   -- either one connection receiving `chunks`, or `schedule` = [[connection index, chunk], ...] over several connections
-  let sched : List (Nat × Bytes) ← match j.getObjVal? "schedule" with
+  -- a chunk `null` = the receive call of that connection ended with socket.timeout; `{"del": u}` = the application
+  -- removes unit u from the server context at this point (`del context[u]`)
+  let chunkOf : Json → P (Option Bytes ⊕ Int) := fun c => match c with
+    | .null => pure (.inl none)
+    | .obj _ => do pure (.inr (← fInt c "del"))
+    | c => do pure (.inl (some (← nats c)))
+  let sched : List (Nat × (Option Bytes ⊕ Int)) ← match j.getObjVal? "schedule" with
     | .ok (.arr a) => a.toList.mapM (fun st => do
         let l ← arr st
-        pure ((← nat (← nth l 0)), (← nats (← nth l 1))))
-    | _ => do pure ((← (← fArr j "chunks").mapM nats).map (fun c => (0, c)))
+        pure ((← nat (← nth l 0)), (← chunkOf (← nth l 1))))
+    | _ => do pure ((← (← fArr j "chunks").mapM chunkOf).map (fun c => (0, c)))
   -- the process-wide control block as the harness found it (counters, listen-only, identity, ...)
   let ctl : Control ← match optFld j "control" with
     | some c => do
@@ -39,10 +45,17 @@ def opServer (j : Json) : P Json := do
                 plus := ← fNats c "plus", ident := ident } : Control)
     | none => pure { counters := List.replicate 9 0, diagReg := List.replicate 16 false, plus := List.replicate 54 0, ident := [] }
   let mut ctx : World := ⟨⟨single, units⟩, ctl⟩
-  let mut conns : Nat → Conn := fun _ => { buf := [] }
+  let conn0 := openConn cfg ctx        -- every connection is open before the first step
+  let mut conns : Nat → Conn := fun _ => conn0
   let mut calls : List Json := []
-  for (i, c) in sched do
-    let (conn', ctx', outs, esc) := connStep cfg (conns i) ctx c
+  for (i, oc) in sched do
+    let (conn', ctx', outs, esc) := match oc with
+      | .inl (some c) => connStep cfg (conns i) ctx c
+      | .inl none => (connTimeout cfg (conns i) ctx, ctx, [], none)
+      | .inr u =>
+        match ctx.units.delItem u with
+        | .ok us => (conns i, { ctx with units := us }, [], none)
+        | .error e => (conns i, ctx, [], some e)
     let old := conns
     conns := fun k => if k = i then conn' else old k
     ctx := ctx'
